@@ -59,6 +59,29 @@ def run_cut(case):
     return {"kind": "custom", "W": 0, "sizes": [], "demands": case["demands"], "pool": [list(c) for c in pool], "events": events, "input": case}
 
 
+def run_cut_history(case):
+    """call history in one process on the same objects: solve, change one piece size IN PLACE in the very list that was passed,
+    solve again with that list.  The trace describes the second instance; its events are the second solves."""
+    from solvor.bp import solve_bp
+    from solvor.cg import solve_cg
+    sizes = list(case["sizes"])
+    demands = list(case["demands"])
+    W = case["W"]
+    try:
+        solve_cg(demands, roll_width=W, piece_sizes=sizes)
+    except Exception:  # noqa: BLE001
+        pass
+    k = case["mut_index"] % len(sizes)
+    sizes[k] = case["mut_size"]
+    events = []
+    for solver, fn in (("cg", solve_cg), ("bp", solve_bp)):
+        try:
+            events.append(_event(solver, fn(demands, roll_width=W, piece_sizes=sizes)))
+        except Exception as ex:  # noqa: BLE001
+            events.append({"e": "raise", "solver": solver, "what": type(ex).__name__})
+    return {"kind": "stock", "W": W, "sizes": list(sizes), "demands": demands, "pool": [], "events": events, "history": True, "input": case}
+
+
 def run_cg_steps(case):
     """Step level: wrap cg._solve_master_lp and cg.knapsack_pricing (module-level names the loop calls) and log every call."""
     import math
